@@ -609,6 +609,21 @@ func TestC20SetMapSequential(t *testing.T) {
 						failf("JSON round trip lost key %d", x)
 					}
 				}
+				// a document the set cannot take (an element of another type, not an array, cut short) is rejected
+				// with an error, and a rejected operation leaves the set as it was
+				bad := rapid.SampledFrom([]string{`[1,"x",2]`, `["a"]`, `{"a":1}`, `[1,2`, `7`, `[1.5]`, `[null,{}]`}).Draw(rt, l+".badJSON")
+				if err := set.UnmarshalJSON([]byte(bad)); err == nil {
+					failf("UnmarshalJSON(%s) into a Set[int] reported no error", bad)
+				}
+				stats["rejected-unmarshal"] = true
+				if set.Len() != len(sm) {
+					failf("UnmarshalJSON(%s) was rejected with an error and changed the set: keys %v, model %v", bad, set.Keys(), sm)
+				}
+				for x := range sm {
+					if !set.Has(x) {
+						failf("UnmarshalJSON(%s) was rejected with an error and the set lost key %d", bad, x)
+					}
+				}
 			case "m.load":
 				got, ok := m.Load(k)
 				want, wok := mm[k]
